@@ -32,7 +32,8 @@
 (***************************************************************************)
 EXTENDS Ref, Json
 
-CONSTANTS MaxLen, Depth
+CONSTANTS MaxLen, Depth,
+          WithShuffle      \* offer a seeded reshuffle stage (C20 transparency only)
 VARIABLES prog, depth
 
 \* ---- the reference of the logging operations: lmap is the identity, lfilter
@@ -71,7 +72,7 @@ RECURSIVE Indexable(_)
 Indexable(a) ==
   CASE a.op \in {"list", "dict"} -> TRUE
     [] a.op = "lfilter" -> ~a.lazy /\ Indexable(a.in)
-    [] a.op \in {"unbatch", "prefetch", "catch"} -> FALSE
+    [] a.op \in {"unbatch", "prefetch", "catch", "rshuffle"} -> FALSE
     [] OTHER -> Indexable(a.in)
 
 -----------------------------------------------------------------------------
@@ -277,6 +278,7 @@ Ops(s) ==
     [op |-> "catch", s |-> s, E |-> "Filter"],
     [op |-> "prefetch", s |-> s, w |-> 1, bs |-> 1, cfe |-> "none"],
     [op |-> "prefetch", s |-> s, w |-> 1, bs |-> 2, cfe |-> "none"]>>
+  \o (IF WithShuffle THEN <<[op |-> "rshuffle", s |-> s, seed |-> 7]>> ELSE <<>>)
 
 Apply(desc, a) == [x \in (DOMAIN desc) \cup {"in"} |-> IF x = "in" THEN a ELSE desc[x]]
 
